@@ -393,12 +393,140 @@ def judge(run, cases, which):
     return dis, mon
 
 
+# ----------------------------------------------------------------------------- sq4
+
+def gen_sq4(rng):
+    c = gen_case(rng, variant="lin", force={"T": rng.randint(2, 6), "N": rng.randint(3, 8)})
+    c["kind"] = "sq4"
+    time0 = Fraction(c["interval"]) * F(c["dt"])
+    lagk = rng.randint(1, c["T"] - 1)
+    jit = F(rng.choice(["0", "0", "0.1", "-0.2", "0.3", "-0.4", "0.45"]))
+    c["t"] = fstr(time0 * (lagk + jit))
+    c["qrange"] = rng.choice(["2.0", "2.5", "3.0"])
+    if c["cond"] is not None and rng.random() < 0.5:
+        c["cond"] = [[rng.choice([0, 1, 1]) for _ in range(c["N"])] for _ in range(c["T"])]
+    return c
+
+
+def sq4_qvectors(c):
+    from PyMatterSim.utils.wavevector import choosewavevector
+    L = np.array([float(F(c["H"][k][k])) for k in range(c["d"])])
+    twopidl = 2 * np.pi / L
+    numofq = int(float(c["qrange"]) * 2.0 / twopidl.min())
+    return choosewavevector(ndim=c["d"], numofq=numofq, onlypositive=False), twopidl
+
+
+def real_sq4(c):
+    tmp = tempfile.mkdtemp(prefix="c06-")
+    try:
+        obj, pos, nbs, spos = build(c, tmp)
+        res = obj.sq4(t=float(c["t"]), qrange=float(c["qrange"]), condition=np_cond(c))
+        if list(res.columns) != ["q", "Sq"]:
+            raise ValueError(f"columns {list(res.columns)}")
+        return np.asarray(res.values, dtype=float), pos, nbs, spos
+    finally:
+        shutil.rmtree(tmp, ignore_errors=True)
+
+
+def sq4_line(c, which, pos, nbs, spos):
+    qv, twopidl = sq4_qvectors(c)
+    toks = [c["t"], len(qv)] + [int(x) for row in qv for x in row]
+    toks += [c["H"][k][k] for k in range(c["d"])]
+    for v in twopidl:
+        q = Fraction(float(v))
+        toks.append(f"{q.numerator}/{q.denominator}")
+    toks += [v for frm in spos for p in frm for v in p]
+    return f"sq4 {which} " + traj_tokens(c, pos, nbs) + " " + " ".join(str(x) for x in toks)
+
+
+def judge_sq4(run, cases, which):
+    prepared, lines, idx = [], [], []
+    for k, c in enumerate(cases):
+        try:
+            real, pos, nbs, spos = real_sq4(c)
+            prepared.append((c, real, None))
+            lines.append(sq4_line(c, which, pos, nbs, spos))
+            idx.append(k)
+        except Exception as e:
+            prepared.append((c, None, f"{type(e).__name__}: {e}"))
+    outs = common.drive(lines) if lines else []
+    omap = dict(zip(idx, outs))
+    dis, skipped = [], 0
+    for k, (c, real, err) in enumerate(prepared):
+        if err is not None:
+            # numpy refuses in-place ops on nan frames etc. only on degenerate inputs; ask the model first
+            try:
+                o = common.drive([sq4_line_safe(c, which)])[0]
+                if o != "bad-op" and o.split()[2] == "1":
+                    skipped += 1
+                    continue
+            except Exception:
+                pass
+            dis.append((c, "real code raised " + err, "raise"))
+            continue
+        o = omap[k]
+        if o == "bad-op":
+            raise common.Infra("driver rejected op: " + lines[idx.index(k)][:200])
+        toks = o.split()
+        mc, mt, deg, mlag = fr(toks[0]), fr(toks[1]), toks[2] == "1", fr(toks[3])
+        lag, ng = int(toks[4]), int(toks[5])
+        vals = toks[6:]
+        keys = [float(fr(vals[3 * g])) for g in range(ng)]
+        qs = [2 * np.pi * np.sqrt(x) for x in keys]
+        gap = min([b - a for a, b in zip(qs, qs[1:])] + [1.0])
+        if mc < MARGIN or (c["mode"] == "x" and mt < MARGIN) or deg or mlag < Fraction(1, 1000) or gap < 1e-6:
+            skipped += 1
+            continue
+        model = np.array([[qs[g] * float(fr(vals[3 * g + 1])), float(fr(vals[3 * g + 2]))] for g in range(ng)])
+        for key in ("d", "mode", "fast", "T", "N"):
+            run.hist("sq4_" + key, c[key])
+        run.hist("sq4_lag", lag)
+        run.hist("sq4_selection", "none" if c["cond"] is None else "mask")
+        run.hist("sq4_cage", bool(c["nn"]))
+        nontriv = bool(np.any(np.abs(real[:, 1] - 1) > 1e-6)) and c["T"] - lag >= 1
+        run.count(lines[idx.index(k)], nontriv, sample={"class": "sq4:" + classify(c), "lag": lag, "real_head": real[:2].tolist(),
+                                                        "model_head": model[:2].tolist()})
+        why = None
+        if real.shape != model.shape:
+            why = f"{real.shape[0]} shells vs {which} {model.shape[0]}"
+        else:
+            for g in range(ng):
+                if not common.close(real[g, 0], model[g, 0], 1e-7):
+                    why = f"shell {g} q: real {real[g, 0]!r} vs {which} {model[g, 0]!r}"
+                    break
+                if not common.close(real[g, 1], model[g, 1], 2e-7):
+                    why = f"shell {g} Sq: real {real[g, 1]!r} vs {which} {model[g, 1]!r}"
+                    break
+        if why:
+            dis.append((c, f"sq4:{classify(c)} lag {lag}: {why}", "sq4"))
+    run.coverage["skipped_inside_margin"] = run.coverage.get("skipped_inside_margin", 0) + skipped
+    return dis
+
+
+def sq4_line_safe(c, which):
+    """the driver line without running the real routine (positions rebuilt from the case)"""
+    tmp = tempfile.mkdtemp(prefix="c06-")
+    try:
+        obj, pos, nbs, spos = build(c, tmp)
+        return sq4_line(c, which, pos, nbs, spos)
+    finally:
+        shutil.rmtree(tmp, ignore_errors=True)
+
+
 def correspond(run):
     n = 60 if run.tier == "quick" else 1000
-    cases = common.load_corpus(PROP) + [gen_case(run.rng) for _ in range(n)]
-    dis, mon = judge(run, [c for c in cases if c.get("kind") != "sq4"], "impl")
+    n4 = 25 if run.tier == "quick" else 300
+    corpus = common.load_corpus(PROP)
+    cases = [c for c in corpus if c.get("kind") != "sq4"] + [gen_case(run.rng) for _ in range(n)]
+    cases4 = [c for c in corpus if c.get("kind") == "sq4"] + [gen_sq4(run.rng) for _ in range(n4)]
+    dis, mon = judge(run, cases, "impl")
+    dis4 = judge_sq4(run, cases4, "impl")
     run.coverage["traces_validated_against_impl"] = run.coverage["evaluations"]
     broken = []
+    if dis4:
+        broken.append({"kind": "correspondence", "name": "Pms.Dyn.Impl.sq4Shell~Dynamics.sq4",
+                       "detail": f"{len(dis4)} of {len(cases4)} cases disagree; first: {dis4[0][1][:300]}",
+                       "cases": [c for c, _, _ in dis4[:20]]})
     if dis:
         broken.append({"kind": "correspondence", "name": "Pms.Dyn.Impl.relaxation~Dynamics/LogDynamics.relaxation",
                        "detail": f"{len(dis)} of {len(cases)} cases disagree; first: {dis[0][1][:300]}",
@@ -411,6 +539,9 @@ def correspond(run):
 
 def failing(run, c):
     """does the REAL code contradict the property's definition (Spec) on this input?  → (reason, column) or None"""
+    if c.get("kind") == "sq4":
+        dis = judge_sq4(run, [c], "spec")
+        return (dis[0][1], dis[0][2]) if dis else None
     if not const_count(c):
         return None
     dis, mon = judge(run, [c], "spec")
@@ -424,6 +555,8 @@ def failing(run, c):
 def shrink(run, c):
     """fewer frames → fewer particles, while the real code still contradicts Spec"""
     best = c
+    if c.get("kind") == "sq4":
+        return c
     for T in range(2, c["T"]):
         cand = dict(best, T=T, xu=best["xu"][:T], cond=None if best["cond"] is None else best["cond"][:max(1, T if best["variant"] == "lin" else 1)])
         if failing(run, cand):
@@ -448,18 +581,26 @@ def search(run, broken):
     for b in broken:
         pool += [c for c in b.get("cases", []) if isinstance(c, dict) and "xu" in c]
     budget = 300 if run.tier == "quick" else 1500
-    pool += [gen_case(run.rng) for _ in range(budget)]
+    fresh = [gen_case(run.rng) for _ in range(budget)]
+    fresh4 = [gen_sq4(run.rng) for _ in range(budget // 4)]
+    # interleave: 4 relaxation cases, 1 sq4 case
+    while fresh or fresh4:
+        pool += fresh[:4]
+        fresh = fresh[4:]
+        pool += fresh4[:1]
+        fresh4 = fresh4[1:]
     tried = 0
     for c in pool:
         tried += 1
         if len(found) >= 4:
             break
         why = failing(run, c)
-        if why and (c["variant"], why[1]) not in found:
+        kind = "sq4" if c.get("kind") == "sq4" else c["variant"]
+        if why and (kind, why[1]) not in found:
             c2 = shrink(run, c)
             why2 = failing(run, c2) or why
-            found.add((c["variant"], why[1]))
-            run.violation(f"C06:{c2['variant']}:{why2[1]}", why2[0], {"case": c2, "broken": [b["name"] for b in broken]})
+            found.add((kind, why[1]))
+            run.violation(f"C06:{kind}:{why2[1]}", why2[0], {"case": c2, "broken": [b["name"] for b in broken]})
     run.coverage["search_cases"] = tried
     if not found:
         unexplained = list(broken)
@@ -470,5 +611,6 @@ def replay(run, rp):
     if "case" in rp:
         return bool(failing(run, rp["case"]))
     cs = [c for c in rp.get("cases", []) if isinstance(c, dict) and "xu" in c]
-    dis, mon = judge(run, cs, "impl") if cs else ([], [])
-    return bool(dis or mon)
+    dis, mon = judge(run, [c for c in cs if c.get("kind") != "sq4"], "impl") if cs else ([], [])
+    dis4 = judge_sq4(run, [c for c in cs if c.get("kind") == "sq4"], "impl") if cs else []
+    return bool(dis or mon or dis4)
